@@ -154,7 +154,9 @@ fn sample_of(j: &Judged) -> serde_json::Value {
         })
         .collect();
     let sched: Vec<String> = j.log.quiescent.iter().take(40).map(|q| format!("{}:{}/{}", q.action, q.choice, q.branching)).collect();
-    json!({"case": j.case.describe(), "schedule": sched, "events": trace, "n_events": j.log.events.len(), "polls": j.log.polls, "end": format!("{:?}", j.log.end)})
+    let route = if super::driver::via_facade(&j.case) { "Cucumber::custom(parser, runner::Basic::default(), writer).<builder calls>.run(())" } else { "runner::Basic::default().<builder calls>.run(parser, cli)" };
+    let calls = format!("{:?}", super::driver::builder_ops(&j.case, super::driver::via_facade(&j.case)));
+    json!({"case": j.case.describe(), "route": route, "builder_calls_in_order": calls, "schedule": sched, "events": trace, "n_events": j.log.events.len(), "polls": j.log.polls, "end": format!("{:?}", j.log.end)})
 }
 
 pub fn judge(id: &str, j: &Judged, ctx: &Ctx) -> CaseOut {
@@ -166,7 +168,7 @@ pub fn judge(id: &str, j: &Judged, ctx: &Ctx) -> CaseOut {
     let (own, nt): (Vec<Violation>, bool) = match id {
         "C02" => (m.violations.clone(), m.attempts.iter().any(|a| a.nonpass || case.before || case.after) && m.attempts.iter().any(|a| a.has_bg)),
         "C03" => (o::check_c03(case, log), o::nt_c03(case, log, m)),
-        "C04" => (o::check_c04(case, log), o::nt_c04(log)),
+        "C04" => (o::check_c04(case, log).into_iter().chain(o::check_c04_starved(case, log, m)).collect(), o::nt_c04(log)),
         "C05" => (o::check_c05(case, log, m), o::nt_c05(m)),
         "C06" => (o::check_c06(case, log, m), o::nt_c06(case, log)),
         "C07" => (o::check_c07(case, log, m), o::nt_c07(case, log, m)),
@@ -194,6 +196,16 @@ pub fn judge(id: &str, j: &Judged, ctx: &Ctx) -> CaseOut {
             if after_calls < started {
                 all.push(Violation::new("C09/after-hook-missing-after-panic", format!("the panic `{p}` of a user callback tore down the run: {started} attempts started, the after hook ran {after_calls} times; attempts left without Finished: {open:?}")));
             }
+        }
+        if id == "C04" {
+            // C04: "every scenario handed to the runner is attempted at least once ... the event
+            // stream ends after finitely many polls": torn down by a panic it neither ends nor
+            // attempts what was still queued.
+            let never: Vec<&str> = case.scenarios.iter().map(|s| s.name.as_str()).filter(|n| !m.attempts.iter().any(|a| a.scenario == *n && a.started.is_some())).collect();
+            all.push(Violation::new(
+                "C04/torn-down-by-panic",
+                format!("polling the event stream panicked with `{p}` (a user callback's panic) instead of the stream ending; scenarios never attempted: {never:?}; attempts left without Finished: {open:?}"),
+            ));
         }
         if id == "C03" {
             // C03: "exactly one run-Finished as its last item, after which the stream ends"
@@ -266,6 +278,16 @@ pub fn judge(id: &str, j: &Judged, ctx: &Ctx) -> CaseOut {
     }
     if case.scenarios.len() > 64 {
         labels.push("wide_default_limit_binds");
+    }
+    if super::driver::via_facade(case) {
+        labels.push("via_cucumber_facade");
+    }
+    {
+        let ops = super::driver::builder_ops(case, false);
+        let pos = |o| ops.iter().position(|x| *x == o);
+        if pos(super::driver::Op::Steps) != Some(0) {
+            labels.push("builder_calls_permuted");
+        }
     }
     if log.quiescent.iter().any(|q| q.action == "sleep-short") {
         labels.push("sleep_short");
